@@ -44,8 +44,20 @@ type FamState struct {
 	Has    *Term
 	Leaves map[string]*Term
 	NKeys  int
-	Tag    string // prefix for lazily created base variables
+	Rest   *Term // identity of the untouched remainder this family was derived from (Int; var or ite of vars)
 	ID     string
+}
+
+// baseLeaf is the array holding leaf p of family id in the untouched remainder denoted by rest.
+func baseLeaf(rest *Term, id, p string, srt *Sort) *Term {
+	if rest.Op == "ite" {
+		return Ite(rest.Args[0], baseLeaf(rest.Args[1], id, p, srt), baseLeaf(rest.Args[2], id, p, srt))
+	}
+	name := rest.Name
+	if rest.Op != "var" {
+		name = fmt.Sprintf("rest%d", rest.ID)
+	}
+	return Var(name+"."+id+"."+p, srt)
 }
 
 // leaf returns the array holding leaf path p, creating its base variable on first use.
@@ -57,7 +69,7 @@ func (f *FamState) leaf(p string, base *Sort) *Term {
 	for i := range ks {
 		ks[i] = SInt
 	}
-	l := Var(f.Tag+"."+f.ID+"."+p, wrapSort(base, ks))
+	l := baseLeaf(f.Rest, f.ID, p, wrapSort(base, ks))
 	f.Leaves[p] = l
 	return l
 }
@@ -70,7 +82,8 @@ type World struct {
 	Time   *Term
 	Chain  *Term
 	Tag    string
-	ModTag map[string]string
+	Rest    *Term            // identity of all untouched store families (default)
+	RestMod map[string]*Term // per-module override after a module-level havoc
 	// Lists: abstract "all entries" views per iterator prefix, created lazily (per world version)
 	Version int
 }
@@ -86,6 +99,7 @@ func NewWorld(tag string) *World {
 		Time:   Var(tag+".time", SInt),
 		Chain:  Var(tag+".chainid", SInt),
 		Tag:    tag,
+		Rest:   Var(tag, SInt),
 	}
 }
 
@@ -107,24 +121,14 @@ func (w *World) fam(id string, nkeys int) *FamState {
 	for i := range ks {
 		ks[i] = SInt
 	}
-	tag := w.Tag
-	mod := id
-	for i := 0; i < len(id); i++ {
-		if id[i] == '/' {
-			mod = id[:i]
-			break
-		}
-	}
-	if t, ok := w.ModTag[mod]; ok {
-		tag = t
-	}
-	f := &FamState{Has: Var(tag+"."+id+".has", wrapSort(SBool, ks)), Leaves: map[string]*Term{}, NKeys: nkeys, Tag: tag, ID: id}
+	rest := w.restOf(modOfFam(id))
+	f := &FamState{Has: baseLeaf(rest, id, "has", wrapSort(SBool, ks)), Leaves: map[string]*Term{}, NKeys: nkeys, Rest: rest, ID: id}
 	w.Fams[id] = f
 	return f
 }
 
 func (f *FamState) clone() *FamState {
-	n := &FamState{Has: f.Has, NKeys: f.NKeys, Tag: f.Tag, ID: f.ID, Leaves: make(map[string]*Term, len(f.Leaves))}
+	n := &FamState{Has: f.Has, NKeys: f.NKeys, Rest: f.Rest, ID: f.ID, Leaves: make(map[string]*Term, len(f.Leaves))}
 	for k, v := range f.Leaves {
 		n.Leaves[k] = v
 	}
@@ -272,6 +276,24 @@ func mergeWorlds(c *Term, a, b *World) *World {
 	n.Height = Ite(c, a.Height, b.Height)
 	n.Time = Ite(c, a.Time, b.Time)
 	n.Chain = Ite(c, a.Chain, b.Chain)
+	n.Rest = Ite(c, a.Rest, b.Rest)
+	n.RestMod = nil
+	mods := map[string]bool{}
+	for m := range a.RestMod {
+		mods[m] = true
+	}
+	for m := range b.RestMod {
+		mods[m] = true
+	}
+	for m := range mods {
+		r := Ite(c, a.restOf(m), b.restOf(m))
+		if r != n.Rest {
+			if n.RestMod == nil {
+				n.RestMod = map[string]*Term{}
+			}
+			n.RestMod[m] = r
+		}
+	}
 	ids := map[string]bool{}
 	for k := range a.Fams {
 		ids[k] = true
@@ -305,10 +327,7 @@ func mergeWorlds(c *Term, a, b *World) *World {
 			wb = b.Clone()
 			fb = wb.fam(k, nk)
 		}
-		m := &FamState{Has: Ite(c, fa.Has, fb.Has), Leaves: map[string]*Term{}, NKeys: nk, Tag: fa.Tag, ID: k}
-		if fa.Tag != fb.Tag {
-			m.Tag = Fresh("mrg", SInt).Name
-		}
+		m := &FamState{Has: Ite(c, fa.Has, fb.Has), Leaves: map[string]*Term{}, NKeys: nk, Rest: Ite(c, fa.Rest, fb.Rest), ID: k}
 		ps := map[string]bool{}
 		for p := range fa.Leaves {
 			ps[p] = true
@@ -319,10 +338,10 @@ func mergeWorlds(c *Term, a, b *World) *World {
 		for p := range ps {
 			la, lb := fa.Leaves[p], fb.Leaves[p]
 			if la == nil && lb != nil {
-				la = Var(fa.Tag+"."+k+"."+p, lb.S)
+				la = baseLeaf(fa.Rest, k, p, lb.S)
 			}
 			if lb == nil && la != nil {
-				lb = Var(fb.Tag+"."+k+"."+p, la.S)
+				lb = baseLeaf(fb.Rest, k, p, la.S)
 			}
 			if la.S != lb.S {
 				panic(fmt.Sprintf("family %s leaf %s: sort clash %s / %s", k, p, la.S, lb.S))
@@ -442,4 +461,20 @@ func livenS(s *State, v *Value) *Value {
 		return n
 	}
 	return v
+}
+
+func modOfFam(id string) string {
+	for i := 0; i < len(id); i++ {
+		if id[i] == '/' {
+			return id[:i]
+		}
+	}
+	return id
+}
+
+func (w *World) restOf(mod string) *Term {
+	if r, ok := w.RestMod[mod]; ok {
+		return r
+	}
+	return w.Rest
 }
